@@ -131,6 +131,21 @@ VF_NOINLINE static void after(Ghost& ga, Ghost& gb) {
   run<D - 1>(ga, gb);
 }
 
+// with VF_FULL == 0 only the state-building kinds (push, resize to N / N+1 / MAX, reserve(N+1), B = A,
+// initializer-list construction, push on B) are explored at the inner levels of the tree; the last
+// level always explores every kind
+#ifndef VF_FULL
+#define VF_FULL 0
+#endif
+// an excluded branch: infeasible for the solver, and not continued by the symbolic execution
+#define SKIP             \
+  {                      \
+    vf_assume(false);    \
+    return;              \
+  }
+#define LAST_ONLY \
+  if (D > 1 && !VF_FULL) SKIP
+
 #define NEXT                                  \
   {                                           \
     [[clang::nomerge]] after<D>(ga, gb);      \
@@ -229,16 +244,18 @@ VF_NOINLINE static void run(Ghost& ga, Ghost& gb) {
   uint32_t op = vf_range_u32(0, 24);
   switch (op) {
     case 0:  // push_back(const&) / push_back(&&) / emplace_back
-      if (ga.n >= VF_MAX) return;
+      if (ga.n >= VF_MAX) SKIP;
       op_push(A, ga);
       NEXT;
     case 1:  // pop_back
-      if (ga.n == 0) return;
+      LAST_ONLY;
+      if (ga.n == 0) SKIP;
       A.pop_back();
       ga.n--;
       NEXT;
     case 2: {  // erase(pos), symbolic position
-      if (ga.n == 0) return;
+      LAST_ONLY;
+      if (ga.n == 0) SKIP;
       uint32_t k = vf_range_u32(0, VF_MAX - 1);
       vf_assume(k < ga.n);
       Vec::iterator r = A.erase(A.cbegin() + k);
@@ -248,6 +265,7 @@ VF_NOINLINE static void run(Ghost& ga, Ghost& gb) {
       NEXT;
     }
     case 3:  // resize(count[, value]) to 0 / N / N+1 / MAX
+      LAST_ONLY;
       op_resize(A, ga, 0);
       NEXT;
     case 4:
@@ -260,20 +278,24 @@ VF_NOINLINE static void run(Ghost& ga, Ghost& gb) {
       op_resize(A, ga, VF_MAX);
       NEXT;
     case 7:  // reserve(1 / N+1 / MAX+1)
+      LAST_ONLY;
       op_reserve(A, 1);
       NEXT;
     case 8:
       op_reserve(A, VF_N + 1);
       NEXT;
     case 9:
+      LAST_ONLY;
       op_reserve(A, VF_MAX + 1);
       NEXT;
     case 10:  // clear
+      LAST_ONLY;
       A.clear();
       ga.n = 0;
       vf_check(A.capacity() == VF_N, "clear() returns to inline storage (capacity() == N)");
       NEXT;
     case 11:  // copy assignment A = B
+      LAST_ONLY;
       A = B;
       ga = gb;
       ga.bytes = 0;
@@ -284,28 +306,33 @@ VF_NOINLINE static void run(Ghost& ga, Ghost& gb) {
       gb.bytes = 0;
       NEXT;
     case 13:  // move assignment A = move(B): source is left empty
+      LAST_ONLY;
       A = std::move(B);
       ga = gb;
       gb.n = 0;
       NEXT;
     case 14:  // move assignment B = move(A)
+      LAST_ONLY;
       B = std::move(A);
       gb = ga;
       ga.n = 0;
       NEXT;
     case 15:  // destroy + move construct A from B
+      LAST_ONLY;
       A.~Vec();
       new (&A) Vec(std::move(B));
       ga = gb;
       gb.n = 0;
       NEXT;
     case 16:  // destroy + copy construct A from B
+      LAST_ONLY;
       A.~Vec();
       new (&A) Vec(B);
       ga = gb;
       ga.bytes = 0;
       NEXT;
     case 17:  // self copy / self move assignment (guarded by this != &other in the real code)
+      LAST_ONLY;
       if (vf_nondet_bool()) {
         A = A;
       } else {
@@ -313,15 +340,18 @@ VF_NOINLINE static void run(Ghost& ga, Ghost& gb) {
       }
       NEXT;
     case 18:  // destroy + default construct
+      LAST_ONLY;
       A.~Vec();
       new (&A) Vec();
       ga.n = 0;
       NEXT;
     case 19:  // destroy + construct with count N / N+1 (default or value-filled)
+      LAST_ONLY;
       A.~Vec();
       op_ctor_count(&A, ga, VF_N);
       NEXT;
     case 20:
+      LAST_ONLY;
       A.~Vec();
       op_ctor_count(&A, ga, C_MID);
       NEXT;
@@ -330,11 +360,12 @@ VF_NOINLINE static void run(Ghost& ga, Ghost& gb) {
       op_ctor_ilist(&A, ga);
       NEXT;
     case 22:  // writes through operator[] / front() / back() / iterators
-      if (ga.n == 0) return;
+      LAST_ONLY;
+      if (ga.n == 0) SKIP;
       op_write(A, ga);
       NEXT;
     case 23:  // push on the partner vector
-      if (gb.n >= VF_MAX) return;
+      if (gb.n >= VF_MAX) SKIP;
       op_push(B, gb);
       NEXT;
     default:  // history ends early
